@@ -865,7 +865,7 @@ func (w *Worker) exec(g *G, fr *Frame, instr ssa.Instruction) ctl {
 		if s.O == nil {
 			w.set(fr, in, PtrV{})
 		} else {
-			unsupported("SliceToArrayPointer")
+			w.set(fr, in, WinPtrV{S: s, N: n})
 		}
 	case *ssa.MakeInterface:
 		w.set(fr, in, IfaceV{T: in.X.Type(), V: w.get(fr, in.X)})
@@ -1051,6 +1051,10 @@ func (w *Worker) concretizePtr(p PtrV) PtrV {
 }
 
 func (w *Worker) loadPtr(g *G, addr Value) Value {
+	if wp, isW := addr.(WinPtrV); isW {
+		el := w.sliceElems(SliceV{O: wp.S.O, Path: wp.S.Path, Off: wp.S.Off, Len: wp.N, Cap: wp.N})
+		return &ArrayV{append([]Value(nil), el...)}
+	}
 	p, ok := addr.(PtrV)
 	if !ok {
 		if po, isP := addr.(PoisonV); isP {
@@ -1087,6 +1091,10 @@ func (w *Worker) loadPtr(g *G, addr Value) Value {
 }
 
 func (w *Worker) storePtr(g *G, addr Value, val Value) bool {
+	if wp, isW := addr.(WinPtrV); isW {
+		w.writeSlice(SliceV{O: wp.S.O, Path: wp.S.Path, Off: wp.S.Off, Len: wp.N, Cap: wp.N}, 0, val.(*ArrayV).E)
+		return true
+	}
 	p, ok := addr.(PtrV)
 	if !ok {
 		if po, isP := addr.(PoisonV); isP {
@@ -1382,6 +1390,9 @@ func (w *Worker) indexAddr(g *G, fr *Frame, in *ssa.IndexAddr) Value {
 		}
 	}
 	signed := isSigned(in.Index.Type())
+	if wp, isW := x.(WinPtrV); isW {
+		x = SliceV{O: wp.S.O, Path: wp.S.Path, Off: wp.S.Off, Len: wp.N, Cap: wp.N}
+	}
 	switch xv := x.(type) {
 	case SliceV:
 		i, ok := w.boundsCheck(g, idx, xv.Len, signed)
